@@ -386,7 +386,10 @@ impl Gen {
     /// predict acceptance; accepted => must survive exactly.
     fn op_create_exotic(&mut self) -> Option<Op> {
         self.table_seq += 1;
-        let name = if self.rng.chance(850) {
+        let name = if self.rng.chance(12) {
+            // reserved: the string pool's own streams are named like table streams
+            self.rng.pick(&["_StringPool", "_StringData"]).to_string()
+        } else if self.rng.chance(850) {
             format!("X{}", self.table_seq)
         } else {
             let l = *self.rng.pick(&[1usize, 31, 32, 33, 40, 59, 60]);
@@ -799,9 +802,15 @@ impl Gen {
             let odd = *self.rng.pick(&[
                 '\u{3800}', '\u{3b3f}', '\u{47ff}', '\u{4800}', '\u{483f}', '\u{4840}', '/', '\\', ':', '!', '\u{5}', '\u{0}',
             ]);
-            let at = self.rng.usize_below(name.chars().count() + 1);
+            let mut at = self.rng.usize_below(name.chars().count() + 1);
+            if self.rng.chance(300) {
+                at = name.chars().count();
+            }
             let mut cs: Vec<char> = name.chars().collect();
             cs.insert(at, odd);
+            if at + 1 == cs.len() && self.rng.chance(300) {
+                cs.push(odd);
+            }
             name = cs.into_iter().collect();
         }
         if allow_odd && self.rng.chance(40) {
@@ -947,7 +956,7 @@ impl Gen {
         let mut n = *self.rng.pick(&[0usize, 1, 2, 3, 4, 5, 6, 7, 8, 15, 16, 17, 100, 1999]);
         if self.rng.chance(25) {
             // the summary stream outgrows the container's 8 KiB stream buffer
-            n = *self.rng.pick(&[8000usize, 8010, 8030, 8192, 9000, 20000]) + self.rng.usize_below(16);
+            n = *self.rng.pick(&[8000usize, 8010, 8030, 8192, 9000, 20000, 33000, 70001]) + self.rng.usize_below(16);
         }
         let mut s = String::new();
         for _ in 0..n {
@@ -1039,7 +1048,7 @@ impl Gen {
         if r < 30 || ts.is_empty() {
             // create_table variants, early and late failures
             let (mut name, mut cols) = self.gen_plain_table(5);
-            match self.rng.below(16) {
+            match self.rng.below(17) {
                 0 => name = "9bad".into(),
                 1 => name = String::new(),
                 2 => cols.clear(),
@@ -1112,6 +1121,18 @@ impl Gen {
                     let c = cols[0].clone();
                     cols = (0..6).map(|i| { let mut d = c.clone(); d.name = format!("K{}", i); d.key = i == 0; d }).collect();
                     cols.last_mut().unwrap().name = self.ident(45);
+                }
+                15 => {
+                    // the pool's own stream names: with a definition that is fine otherwise, or
+                    // one that only the late checks refuse
+                    name = self.rng.pick(&["_StringData", "_StringPool"]).to_string();
+                    if self.rng.chance(400) {
+                        let i = self.rng.usize_below(cols.len());
+                        cols[i].ty = CType::I32;
+                        cols[i].category = None;
+                        cols[i].enums.clear();
+                        cols[i].range = Some((i32::MIN, 5));
+                    }
                 }
                 _ => name = "_Tables".into(),
             }
@@ -1660,6 +1681,36 @@ impl Gen {
         }
     }
 
+    /// Change a summary value, save, put back exactly what the session started with, close.
+    fn macro_summary_restore(&mut self) {
+        let r1 = self.op_restart();
+        self.push(r1);
+        let f = *self.rng.pick(&[SumField::Title, SumField::Subject, SumField::Author, SumField::Comments, SumField::App]);
+        let before: Option<String> = match self.model.summary.strs.get(&field_idx(f)) {
+            None => None,
+            Some(SStr::Exact(s)) => Some(s.clone()),
+            Some(_) => return,
+        };
+        if before.as_deref().map(|s| !crate::cp::representable(self.model.summary.codepage, s)).unwrap_or(false) {
+            return;
+        }
+        let tok = self.token(false);
+        let op = SumOp::SetStr(f, format!("{} interim", tok));
+        self.model.apply_summary(&op);
+        self.push(Op::Summary(op));
+        self.push(Op::Flush);
+        self.model.on_save();
+        let back = match before {
+            Some(s) => SumOp::SetStr(f, s),
+            None => SumOp::ClearStr(f),
+        };
+        self.model.apply_summary(&back);
+        self.push(Op::Summary(back));
+        let r2 = self.op_restart();
+        self.push(r2);
+        self.push(Op::Observe);
+    }
+
     /// A save window whose only change is one summary setter (per-setter dirty
     /// tracking shows here and nowhere else).
     fn macro_single_summary(&mut self) {
@@ -1762,6 +1813,10 @@ impl Gen {
         }
         if matches!(self.profile, Profile::Reject | Profile::Clean | Profile::Foreign) && self.handles_open.is_empty() && self.rng.chance(25) {
             self.macro_unencodable();
+            return;
+        }
+        if matches!(self.profile, Profile::Summary | Profile::Foreign) && self.handles_open.is_empty() && self.rng.chance(if self.profile == Profile::Summary { 25 } else { 5 }) {
+            self.macro_summary_restore();
             return;
         }
         if matches!(self.profile, Profile::Summary | Profile::Clean | Profile::Foreign | Profile::Crash) && self.handles_open.is_empty() && self.rng.chance(if self.profile == Profile::Summary { 40 } else { 8 }) {
@@ -2084,7 +2139,7 @@ pub fn gen_foreign_spec_ext(rng: &mut Prng, big: bool, wide_ok: bool) -> Foreign
         long_refs,
         tables,
         validation,
-        pool_holes: if big { 2500 + rng.below(1000) as u32 } else if rng.chance(500) { rng.below(6) as u32 } else { 0 },
+        pool_holes: if big { 2500 + rng.below(1000) as u32 } else if rng.chance(500) { rng.below(6) as u32 } else if rng.chance(200) { 100 + rng.below(300) as u32 } else { 0 },
         pool_dups: rng.chance(300),
         overcount: if rng.chance(200) { 1 + rng.below(4) as u32 } else { 0 },
         pool_pad: if long_refs && rng.chance(60) { 65_600 } else { 0 },
